@@ -47,7 +47,6 @@ Proof. intros a b H. destruct a, b; try reflexivity; discriminate H. Qed.
 
 (* ------------------------------------------------------------------ the model's turn class is the specification's *)
 (* for ALL headings on which the code does not fail (any integers, not only 0..359) *)
-Definition angle_range : list Z := map (fun n => (Z.of_nat n - 180)%Z) (seq 0 361).
 Lemma in_angle_range : forall a, (-180 <= a <= 180)%Z -> In a angle_range.
 Proof.
   intros a Ha. unfold angle_range. apply in_map_iff. exists (Z.to_nat (a + 180)). split; [lia|]. apply in_seq. lia.
@@ -55,7 +54,7 @@ Qed.
 Lemma rows_in_range : forallb (fun r => (-180 <=? fst (fst r))%Z && (snd (fst r) <=? 180)%Z) turn_ranges = true.
 Proof. vm_compute. reflexivity. Qed.
 Lemma from_angle_sweep :
-  forallb (fun a => match from_angle a with Ok t => turn_eqb t (spec_class a) | _ => true end) angle_range = true.
+  forallb angle_ok angle_range = true.
 Proof. vm_compute. reflexivity. Qed.
 
 Lemma first_row_bounds : forall rows a nm,
@@ -79,7 +78,7 @@ Lemma from_angle_class : forall a t, from_angle a = Ok t -> t = spec_class a.
 Proof.
   intros a t H. pose proof (from_angle_range a t H) as Hr.
   pose proof from_angle_sweep as Hs. rewrite forallb_forall in Hs. specialize (Hs a (in_angle_range a Hr)).
-  rewrite H in Hs. apply turn_eqb_eq. exact Hs.
+  unfold angle_ok in Hs. rewrite H in Hs. apply turn_eqb_eq. exact Hs.
 Qed.
 
 Lemma bearing_cases : forall h1 h2 a,
@@ -550,19 +549,7 @@ Section Costs.
 End Costs.
 
 (* ------------------------------------------------------------------ turn classification *)
-Definition heading_range : list Z := map Z.of_nat (seq 0 360).
 
-(* one pair of headings: the wrapped difference is in [-180, 180], exactly one row of Turn::from_angle contains it,
-   from_angle returns that row's turn, and it is the turn the specification names *)
-Definition rows_matching (a : Z) : nat :=
-  List.length (filter (fun r => (fst (fst r) <=? a)%Z && (a <=? snd (fst r))%Z) turn_ranges).
-Definition turn_ok (h1 h2 : Z) : bool :=
-  match bearing_to_destination (Build_heading h1 None) (Build_heading h2 None) with
-  | Ok a =>
-      (-180 <=? a)%Z && (a <=? 180)%Z && Nat.eqb (rows_matching a) 1
-      && match from_angle a with Ok t => turn_eqb t (spec_turn h1 h2) | _ => false end
-  | _ => false
-  end.
 Lemma turn_sweep : forallb (fun h1 => forallb (turn_ok h1) heading_range) heading_range = true.
 Proof. vm_compute. reflexivity. Qed.
 
